@@ -614,17 +614,19 @@ Definition mix (h v : Z) : Z := ((h * 1000003 + (v mod 4294967296) + 7) mod 4294
 
 (* operations of the harness: an event of the LTS; or "plant an empty FIFO under name n, start a bufferer, and
    let the feeder run only up to the load of n" (two events: ETamper, ERestart); or "let the feeder go on"
-   (no event: scheduling only) *)
+   (no event: scheduling only); or "the consumer polls the window and finds it empty" (no event) *)
 Inductive rop :=
 | ROp (e : event)
 | RHold (n : name) (Q M : nat) (maxb : Z)
-| RRelease.
+| RRelease
+| RProbe.
 
 Definition events_of (o : rop) : list event :=
   match o with
   | ROp e => [e]
   | RHold n Q M maxb => [ETamper n (Some (EFile [])); ERestart Q M maxb true]
   | RRelease => []
+  | RProbe => []
   end.
 
 (* while the feeder is held the harness only accepts chunks, registers consumers and touches foreign files *)
@@ -670,6 +672,12 @@ Fixpoint replay (i : nat) (ops : list rop) (hold : option name) (s : state) (h :
       end
     | RRelease =>
       if stalled hold s then go s None else inr i
+    | RProbe =>
+      (* the consumer polls the window and finds nothing (no event: an observation) *)
+      match hold, st_win s with
+      | None, [] => go s hold
+      | _, _ => inr i
+      end
     end
   end.
 
@@ -685,6 +693,7 @@ End Buffer.
      10 Tamper   a=name b=kind (0 remove, 1 file with data c, 2 sub-directory)
      12 Hold     a=name b=1000*Q+M c=maxBytes: empty FIFO under the name, Restart, feeder stops at its load
      13 Release  the feeder goes on
+     14 Probe    the consumer polls the window and finds it empty
    write script  c = kind + 16*n:  0 none, 1 open fails, 2 rename fails, 3 short write of n bytes without
      error, 4 write error after n bytes, 5..8 killed at kill point 1..4 (n bytes written), 9 close fails.
    The matcher is the one of the fluentd-forward output: strings.HasSuffix(id, ".ff"). *)
@@ -738,6 +747,7 @@ Fixpoint parse_ops (fuel : nat) (pool : list bytes) (zs : list Z) : option (list
                          else if (b =? 1)%Z then Some (EFile (pool_get pool c)) else Some EDir)))
         else if (opc =? 12)%Z then Some (RHold (pool_get pool a) (Z.to_nat (b / 1000)) (Z.to_nat (b mod 1000)) c)
         else if (opc =? 13)%Z then Some RRelease
+        else if (opc =? 14)%Z then Some RProbe
         else None in
       match ev, parse_ops f pool zs' with
       | Some e, Some es => Some (e :: es)
